@@ -142,6 +142,8 @@ pub fn run_wire_case(c: &Value, seed: u64, dry: bool) -> Value {
         stream.truncate(cut as usize);
     }
     let (mut rcv, cap) = build(ty, &c["rsh"], seed ^ id ^ 0xABCDEF);
+    // every layout allocates through alloc_aligned, which pads the buffer to a multiple of 64 bytes
+    let cap = cap.next_multiple_of(64);
     let pre = rcv.ser();
     // dry = the case killed the process (abort, e.g. an allocation the stream asked for): describe it without re-running it
     let r = if dry { Err("process aborted".to_string()) } else { guarded(|| rcv.de(&stream)) };
